@@ -1020,5 +1020,58 @@ theorem probe_runSteps_le (prb : Probe) (outcome : Option ProbeResult) (s : AbsS
       · simp only [Bool.not_true, Bool.false_eq_true, if_false, Prog.runSteps, Call.exec]
         split <;> simp [Prog.runSteps, pure]
 
+theorem backedB_iff (s : AbsState) : backedB s = true ↔ Backed s := by
+  unfold backedB Backed
+  simp only [List.all_eq_true, List.any_eq_true, Bool.or_eq_true, Bool.not_eq_true', Bool.and_eq_true, beq_iff_eq]
+  constructor
+  · intro h k row g hr hm
+    have hmem : (k, row) ∈ s.servers.toList := ExtTreeMap.mem_toList_iff_getElem?_eq_some.2 hr
+    have := h (k, row) hmem g (by cases g <;> simp)
+    rcases this with hf | hq
+    · rw [hm] at hf; cases hf
+    · exact hq
+  · intro h kv hmem g _
+    have hr : s.servers[kv.1]? = some kv.2 := ExtTreeMap.mem_toList_iff_getElem?_eq_some.1 hmem
+    cases hm : Status.has kv.2.svr.status (retryMark g) with
+    | false => exact Or.inl rfl
+    | true => exact Or.inr (h kv.1 kv.2 g hr hm)
+
+/-! ## the witness of the holder-loss finding -/
+
+namespace W
+/-- server A -/
+def A : Addr := ⟨1, 10480⟩
+/-- A's record: reported, awaiting a port retry -/
+def svr : Server := { addr := A, queryPort := 10481, status := Status.master ||| Status.info ||| Status.portRetry, info := [], details := ⟨[], [], []⟩, refreshedAt := some 0, version := 2 }
+/-- the registry holds A, the queue is empty: the only port probe for A has been popped -/
+def state : AbsState := { servers := (∅ : ExtTreeMap Nat SRow).insert A.key ⟨svr, 0⟩, queue := [], nextId := 1 }
+/-- the popped probe, held by the prober -/
+def probe : Probe := ⟨A, 10480, .port, 0, 2⟩
+
+theorem state_row (k : Nat) (row : SRow) (h : state.servers[k]? = some row) : k = A.key ∧ row = ⟨svr, 0⟩ := by
+  simp only [state, ExtTreeMap.getElem?_insert] at h
+  split at h
+  · rename_i hk
+    cases h
+    exact ⟨by simpa using Eq.symm (by simpa using hk : A.key = k), rfl⟩
+  · simp at h
+
+theorem state_keyed : Keyed state := by
+  intro k row h
+  obtain ⟨rfl, rfl⟩ := state_row k row h
+  rfl
+
+theorem state_backedExcept : BackedExcept state A .port := by
+  intro k row g h hm
+  obtain ⟨rfl, rfl⟩ := state_row k row h
+  cases g with
+  | details => exact absurd hm (by decide)
+  | port => exact Or.inl ⟨rfl, rfl⟩
+
+theorem state_canon (row : SRow) (h : state.servers[A.key]? = some row) : row.svr.addr = A := by
+  obtain ⟨_, rfl⟩ := state_row _ row h
+  rfl
+end W
+
 end C16
 end Swat4
